@@ -111,8 +111,18 @@ def classify_forward(fn, t):
     return None
 
 
+class CallRec(tuple):
+    """(canonical call string, term, event, index in fwd order); `.sub` is the call term with the path's values substituted"""
+
+
+def _callrec(sub, t, e, nf, roles):
+    r = CallRec((sym.canon(sub, roles), t, e, nf))
+    r.sub = sub
+    return r
+
+
 class PathSummary:
-    __slots__ = ('conds', 'fwd', 'calls', 'end', 'ret', 'path', 'throws', 'throw_at_fwd', 'throw_at_call', 'unwinds', 'writes', 'ret_term', 'fwd_ids', 'cond_terms', 'fields')
+    __slots__ = ('conds', 'fwd', 'calls', 'end', 'ret', 'path', 'throws', 'throw_at_fwd', 'throw_at_call', 'unwinds', 'writes', 'ret_term', 'fwd_ids', 'cond_terms', 'fields', 'ret_truth')
 
     def __init__(self):
         self.conds = []     # (canonical cond, taken)
@@ -136,8 +146,23 @@ def const_truth(t):
     t = sym.strip_casts(t)
     if not isinstance(t, dict):
         return None
+    if t.get('k') == 'lit' and t.get('null'):
+        return False
     if t.get('k') == 'lit' and 'v' in t:
         return bool(t['v'])
+    if t.get('k') == 'bin' and t.get('op') in ('==', '!='):
+        # two literals (a result variable that is still the null / zero it was initialised with)
+        a, b = sym.strip_casts(t['l']), sym.strip_casts(t['r'])
+        def cv(x):
+            if x.get('k') == 'lit':
+                return 0 if x.get('null') else x.get('v')
+            if x.get('k') == 'global' and x.get('const') and 'v' in x:
+                return x['v']       # a configuration constant: `debug_fence_size == 0u` is as decided as `!debug_fence_size`
+            return None
+        if isinstance(a, dict) and isinstance(b, dict):
+            va, vb = cv(a), cv(b)
+            if isinstance(va, (int, bool)) and isinstance(vb, (int, bool)):
+                return (int(va) == int(vb)) == (t['op'] == '==')
     if t.get('k') == 'global' and t.get('const') and 'v' in t:
         return bool(t['v'])
     if t.get('k') == 'tparam' and 'v' in t:
@@ -217,6 +242,8 @@ def summarize(fn, exceptional=False, extra_forward=None, roles=None, inline=None
                         if do_inline:
                             # bind parameters
                             binds = {}
+                            if callee.kind == 'lambda' and callee.rec.get('parent_fn') == f.key:
+                                binds.update(env.vals)      # a local closure called in its own function sees the values of what it captured
                             args = t.get('args', [])
                             for prm, a in zip(callee.params, args):
                                 binds[prm['did']] = env.subst(a)
@@ -231,9 +258,9 @@ def summarize(fn, exceptional=False, extra_forward=None, roles=None, inline=None
                                 step_path(f, p, idx, env2, init_vals, depth, st2, cont)
                             run_fn(callee, binds, depth + 1, (conds, fwds, calls, fwd_ids, callvals, meta), after)
                             return
-                        calls.append((sym.canon(resolve_ternaries(env.subst(t), conds, roles), roles), t, e, len(fwds)))
+                        calls.append(_callrec(resolve_ternaries(env.subst(t), conds, roles), t, e, len(fwds), roles))
                 elif t is not None and t.get('k') in ('construct', 'new', 'delete'):
-                    calls.append((sym.canon(resolve_ternaries(env.subst(t), conds, roles), roles), t, e, len(fwds)))
+                    calls.append(_callrec(resolve_ternaries(env.subst(t), conds, roles), t, e, len(fwds), roles))
                 if e['ev'] == 'return' and e.get('e') is not None:
                     ret_term = env.subst(e['e'])
                 if e['ev'] == 'init' and depth == 0 and not e.get('implicit'):
@@ -315,6 +342,8 @@ def summarize(fn, exceptional=False, extra_forward=None, roles=None, inline=None
             ret_term = resolve_ternaries(ret_term, cs, roles)
         s.ret = sym.canon(ret_term, roles) if ret_term is not None else None
         s.ret_term = ret_term
+        # a returned boolean expression whose atoms the path has decided has a known truth value on this path
+        s.ret_truth = truth_under(ret_term, cs, roles) if ret_term is not None else None
         s.cond_terms = meta.get('cond_terms', [])
         s.fields = meta.get('fields', {})
         s.fwd_ids = fwd_ids
@@ -339,17 +368,21 @@ def resolve_ternaries(t, conds, roles, depth=0):
     if not isinstance(t, dict) or depth > 8:
         return t
     if t.get('k') == 'cond':
-        known = {}
-        for ct_, tk_ in split_condition(t['c'], True):
-            known[sym.canon(ct_, roles)] = tk_
-        cd = {}
-        for c_, tk_ in conds:
-            cd[c_] = tk_
-        if known and all(k_ in cd for k_ in known):
-            if all(cd[k_] == v_ for k_, v_ in known.items()):
-                return resolve_ternaries(t['t'], conds, roles, depth + 1)
-            if len(known) == 1:
-                return resolve_ternaries(t['f'], conds, roles, depth + 1)
+        v = truth_under(t['c'], conds, roles)
+        if v is not None:
+            return resolve_ternaries(t['t'] if v else t['f'], conds, roles, depth + 1)
+    if t.get('k') == 'bin' and t.get('op') in ('&&', '||'):
+        # an operand the path has decided: `true && x` is x, `false && x` is false (the CFG branched on it before evaluating x)
+        a, b = truth_under(t['l'], conds, roles), truth_under(t['r'], conds, roles)
+        absorbing = (t['op'] == '||')
+        if a is not None and a == absorbing or b is not None and b == absorbing:
+            return {'k': 'lit', 'v': bool(absorbing), 'bool': True, 't': 'bool'}
+        if a is not None and b is not None:
+            return {'k': 'lit', 'v': bool(a and b if t['op'] == '&&' else a or b), 'bool': True, 't': 'bool'}
+        if a is not None:
+            return resolve_ternaries(t['r'], conds, roles, depth + 1)
+        if b is not None:
+            return resolve_ternaries(t['l'], conds, roles, depth + 1)
     out = {}
     changed = False
     for kk, vv in t.items():
@@ -364,6 +397,47 @@ def resolve_ternaries(t, conds, roles, depth=0):
         else:
             out[kk] = vv
     return out if changed else t
+
+
+def truth_under(t, conds, roles, depth=0):
+    """three-valued truth of a boolean term given the (canonical condition, truth) pairs a path has decided: True, False or None"""
+    if not isinstance(t, dict) or depth > 10:
+        return None
+    ct = const_truth(t)
+    if ct is not None:
+        return ct
+    t0 = sym.strip_casts(t)
+    if not isinstance(t0, dict):
+        return None
+    if t0.get('k') == 'un' and t0.get('op') == '!':
+        v = truth_under(t0['e'], conds, roles, depth + 1)
+        return None if v is None else (not v)
+    if t0.get('k') == 'bin' and t0.get('op') in ('&&', '||'):
+        a = truth_under(t0['l'], conds, roles, depth + 1)
+        b = truth_under(t0['r'], conds, roles, depth + 1)
+        if t0['op'] == '&&':
+            if a is False or b is False:
+                return False
+            return True if (a is True and b is True) else None
+        if a is True or b is True:
+            return True
+        return False if (a is False and b is False) else None
+    if t0.get('k') == 'cond':
+        c = truth_under(t0['c'], conds, roles, depth + 1)
+        if c is None:
+            return None
+        return truth_under(t0['t'] if c else t0['f'], conds, roles, depth + 1)
+    atoms = split_condition(t0, True)
+    if len(atoms) != 1:
+        return None
+    a, tk = atoms[0]
+    key = sym.canon(a, roles)
+    while key.startswith('!(') and key.endswith(')') and _balanced(key[2:-1]):
+        key, tk = key[2:-1], not tk
+    for c, v in conds:
+        if c == key:
+            return v == tk
+    return None
 
 
 _COMPLEMENT = {'<': '>=', '<=': '>', '>': '<=', '>=': '<', '==': '!=', '!=': '=='}
@@ -428,7 +502,7 @@ def trace(fn, roles=None, db=None, exceptional=False, limit=3000, init_vals=None
                         break
                     continue
                 steps.append({'kind': 'br', 'cond': cond, 'c': sym.canon(cond, roles), 'taken': it[2], 'assume': it[3],
-                              'stmt': it[4] if len(it) > 4 else None})
+                              'stmt': it[4] if len(it) > 4 else None, 'raw': it[1]})
             elif it[0] == 'end':
                 steps.append({'kind': 'end', 'end': it[1], 'ret': ret})
             elif it[0] == 'throw':
